@@ -160,6 +160,28 @@ class Normaliser:
         return (q, el)
 
 
+def absorb_nan_guard(f):
+    """``(<v is not entirely NaN>) and (ANY[v < a] or ANY[b < v] ...)`` is the second factor alone: an ordering comparison
+    that holds somewhere has a non-NaN operand there, so v is not all NaN.  The first factor is recognised as a
+    disjunction containing ANY[not isnan(v)] (a dtype test or-ed to it only widens it)."""
+    if f[0] != "and":
+        return f
+    parts = list(f[1])
+    for p in parts:
+        vs = {d[1][2] for d in (list(p[1]) if p[0] == "or" else [p]) if d[0] == "any" and d[1][0] == "pred" and d[1][1] == "isnan" and d[1][3] is False}
+        if not vs:
+            continue
+        rest = [q for q in parts if q is not p]
+        ok = bool(rest)
+        for q in rest:
+            for d in (list(q[1]) if q[0] == "or" else [q]):
+                if not (d[0] == "any" and d[1][0] == "cmp" and d[1][1] in ("<", "<=") and (d[1][2] in vs or d[1][3] in vs)):
+                    ok = False
+        if ok:
+            return _mk("and", rest) if len(rest) > 1 else rest[0]
+    return f
+
+
 def top_disjuncts(f):
     return list(f[1]) if f[0] == "or" else [f]
 
